@@ -37,4 +37,12 @@ def main():
 
 
 if __name__ == "__main__":
-    main()
+    try:
+        main()
+    except SystemExit:
+        raise
+    except BaseException:  # noqa: an internal crash must never look like a VIOLATION (exit 1)
+        import traceback
+        traceback.print_exc()
+        print("HARNESS-ERROR internal exception in the verification machinery")
+        sys.exit(3)
